@@ -7,6 +7,7 @@ CONSTANTS
   Exp = 2
   MaxClock = 3
   FetchUnderLock = TRUE
+  AnyIdx = FALSE
   MaxReq = 2
   Invals = {FALSE}
   MCStatuses = {200}
